@@ -93,5 +93,10 @@ if __name__ == '__main__':
         for name in sorted(os.listdir(base)):
             sd = os.path.join(base, name)
             if os.path.exists(os.path.join(sd, 'patch.diff')):
-                for p, (rc, n, d) in detect(sd, tier).items():
+                try:
+                    results = detect(sd, tier)
+                except SystemExit as e:
+                    print(f'{name}: PATCH-FAILS {str(e)[:120]}')
+                    continue
+                for p, (rc, n, d) in results.items():
                     print(f'{name} {p}: exit={rc} violations={n} {"DETECTED" if rc == 1 and n else "MISSED" if rc == 0 else "ERROR"}')
